@@ -12,6 +12,7 @@ from typing import Dict, List, Optional, Tuple
 
 from ..index import AnalysisError, call_name, norm, norm1, names_in
 from .common import calls, enclosing, enclosing_all, fctx, in_body, is_name, method_calls, stmts, store_targets
+from .groups import check_band_values
 
 LEVEL = "other"
 EXPLANATION = (
@@ -171,33 +172,13 @@ def run(ctx) -> None:
     r3 = ctx.rule("R15.3", "tabulation: per-band values come from per-group averages")
     tb = idx.function(TAB, "Tabulator.__call__")
     r3.instance(tb.short)
-    tcfg, tdu, tpm = fctx(tb)
-    vals = [s for s in stmts(tb.node) if isinstance(s, ast.Assign) and isinstance(s.targets[0], ast.Subscript)
-            and norm(s.targets[0].value) == "values"]
-    if len(vals) != 1:
-        raise AnalysisError("Tabulator.__call__: `values[n] = …` not found")
-    v = vals[0]
-    n = norm(v.targets[0].slice)
-    vt = norm(v.value).replace(" ", "")
-    r3.check(vt.endswith(f"/({n}[1]-{n}[0])") and "formula.trace(ik,inn,out)" in vt, "group value = trace over the group / group size",
-             tb, v, f"group value is `{norm1(v.value)}`: not the trace over the group divided by its size")
-    inn = tdu.single_def("inn", tcfg.node(v))
-    out = tdu.single_def("out", tcfg.node(v))
-    r3.check(inn is not None and norm(inn.value).replace(" ", "") == f"np.arange({n}[0],{n}[1])", "inner states = the whole group [n0, n1)",
-             tb, inn.stmt if inn else v, "the traced states are not exactly the bands of the group")
-    r3.check(out is not None and norm(out.value).replace(" ", "") == f"np.concatenate((np.arange(0,{n}[0]),np.arange({n}[1],NB)))",
-             "outer states = complement of the group", tb, out.stmt if out else v, "the outer states are not the complement of the group")
-    st = [s for s in stmts(tb.node) if isinstance(s, ast.Assign) and isinstance(s.targets[0], ast.Subscript)
-          and norm(s.targets[0].value) == "rslt"]
-    r3.check(len(st) == 1 and norm(st[0].value).startswith("values[") and "group[ik][ib]" in norm(st[0].value),
-             "every band receives the value of its own group", tb, st[0] if st else tb.node,
-             "per-band results are not taken from the per-group dictionary")
-    t = norm(tb.node)
-    r3.check("degen_thresh=self.degen_thresh, degen_Kramers=self.degen_Kramers" in t, "groups use the calculator's thresholds", tb, tb.node,
-             "Tabulator does not pass its degeneracy settings to the grouping", stmt="thresholds")
-    grp = [s for s in ast.walk(tb.node) if isinstance(s, ast.If) and norm(s.test).replace(" ", "") in ("n[1]>ib>=n[0]", "n[0]<=ib<n[1]")]
-    r3.check(bool(grp), "band → group by n0 ≤ ib < n1", tb, grp[0] if grp else tb.node, "band-to-group assignment changed",
-             stmt="n[1] > ib >= n[0]")
+    check_band_values(r3, idx, tb, average=True)
+    gcall = [c for c in method_calls(tb.node, "get_bands_in_range_groups")]
+    r3.expect(len(gcall) == 1, "grouping call located", tb, tb.node, "Tabulator.__call__: get_bands_in_range_groups(…) not found")
+    if gcall:
+        kw = {k.arg: norm(k.value) for k in gcall[0].keywords}
+        r3.check(kw.get("degen_thresh") == "self.degen_thresh" and kw.get("degen_Kramers") == "self.degen_Kramers", "groups use the calculator's thresholds", tb, gcall[0],
+                 "Tabulator does not pass its degeneracy settings to the grouping", stmt="thresholds")
 
     # ---------------------------------------------------------------- R15.4
     r4 = ctx.rule("R15.4", "wannierise: frozen window excludes, outer window includes cut multiplets", min_instances=2)
